@@ -526,3 +526,87 @@ def nest_once(rng, spec: dict, sub_name: str, *, allow_rename=True, allow_bind=T
                     nested["nodes"].append(copy.deepcopy(extra))
                     info.setdefault("reused_inner_names", []).append(e)
     return flat, nested, info
+
+
+_NO = object()
+
+
+def permute_wiring(rng: random.Random, spec: dict, p: float = 0.25) -> int:
+    """Inside single function nodes, permute the node's own external input names (a swap or a 3-cycle, in
+    ONE with_inputs() call or step by step through a temporary name) and swap the outputs of multi-output
+    nodes. Signature defaults move along, so every external name keeps its default (the constructor demands
+    consistent defaults per name). Returns the number of nodes changed."""
+    changed = 0
+    for ns in spec["nodes"]:
+        if ns["k"] != "fn" or ns.get("rename_in") or ns.get("rename_out"):
+            continue
+        ps = ns.get("params", [])
+        if len(ps) >= 2 and rng.random() < p:
+            k = min(len(ps), rng.choice([2, 2, 3]))
+            idx = rng.sample(range(len(ps)), k)
+            names = [ps[i]["n"] for i in idx]
+            ds = [ps[i].get("d", _NO) for i in idx]
+            for j, i in enumerate(idx):
+                d = ds[(j + 1) % k]
+                ps[i].pop("d", None)
+                if d is not _NO:
+                    ps[i]["d"] = d
+            if rng.random() < 0.65:
+                ns["rename_in"] = [{names[j]: names[(j + 1) % k] for j in range(k)}]
+            else:
+                tmp = f"tmp_{ns['name']}"
+                steps = [{names[k - 1]: tmp}]
+                for j in range(k - 2, -1, -1):
+                    steps.append({names[j]: names[j + 1]})
+                steps.append({tmp: names[0]})
+                ns["rename_in"] = steps
+            changed += 1
+        outs = ns.get("outs", [])
+        if len(outs) >= 2 and rng.random() < p:
+            a, b = rng.sample(outs, 2)
+            ns["rename_out"] = [{a: b, b: a}]
+            changed += 1
+    return changed
+
+
+def gen_feedback_gated(rng: random.Random) -> dict:
+    """Gated programs in which a branch output feeds back into the gate that selected the branch, while that
+    gate cannot decide again: it waits for a one-shot signal ('oneshot'), or it is itself the target of an outer
+    gate that reads the same feedback and may re-decide against it ('under'). A decision that went stale must
+    not be mistaken for 'has not decided yet'. Only the trace rules apply (no reference values)."""
+    kind = rng.choice(["oneshot", "under"])
+    k = rng.randint(2, 3)
+    targets = ["c" + "t" * (j + 1) for j in range(k)]
+    fb_from = {rng.randrange(k)}  # (two exclusive branches feeding one name back into their own gate are rejected by the constructor)
+    use_ifelse = k == 2 and rng.random() < 0.4
+    tl = rng.randint(2, 4)
+    if use_ifelse:
+        G = {"k": "ifelse", "name": "c", "params": [{"n": "x"}, {"n": "fb", "d": 0}], "key": "x", "t": targets[0], "f": targets[1], "table": [rng.random() < 0.5 for _ in range(tl)]}
+    else:
+        pool = targets + (["END"] if rng.random() < 0.3 else [])
+        G = {"k": "route", "name": "c", "params": [{"n": "x"}, {"n": "fb", "d": 0}], "key": "x", "targets": pool, "table": [rng.choice(pool) for _ in range(tl)]}
+    G["open"] = rng.random() < 0.75
+    extra = [{"n": "flag"}] if kind == "under" else []
+    # the targets become runnable together with their gate (oneshot: they consume the output of the node that
+    # emits the signal), otherwise an early-start gate would have let all of them run before it decides
+    first = {"n": "s0"} if kind == "oneshot" else {"n": "x"}
+    tnodes = [{"k": "fn", "name": t, "params": [first] + extra, "outs": ["fb" if j in fb_from else f"q{j}"]} for j, t in enumerate(targets)]
+    nodes = [G] + tnodes
+    inputs = ["x"]
+    if kind == "oneshot":
+        G["wait"] = ["ready"]
+        nodes.insert(0, {"k": "fn", "name": "init", "params": [{"n": "seed"}], "outs": ["s0"], "emit": ["ready"]})
+        inputs.append("seed")
+    else:
+        ol = rng.randint(2, 4)
+        if rng.random() < 0.5:
+            OG = {"k": "ifelse", "name": "og", "params": [{"n": "flag"}, {"n": "fb", "d": 0}], "key": "fb", "t": "c", "f": "skip", "table": [True] + [rng.random() < 0.3 for _ in range(ol - 1)]}
+        else:
+            pool = ["c", "skip"] + (["END"] if rng.random() < 0.4 else [])
+            OG = {"k": "route", "name": "og", "params": [{"n": "flag"}, {"n": "fb", "d": 0}], "key": "fb", "targets": pool, "table": ["c"] + [rng.choice(pool[1:] if rng.random() < 0.7 else pool) for _ in range(ol - 1)]}
+        OG["open"] = rng.random() < 0.75
+        nodes = [OG] + nodes + [{"k": "fn", "name": "skip", "params": [{"n": "flag"}], "outs": ["skipped"]}]
+        inputs.append("flag")
+    if rng.random() < 0.5:
+        rng.shuffle(nodes)
+    return {"name": "g", "nodes": nodes, "bind": {}, "inputs": inputs, "selectors": ["x"], "deterministic": False, "feedback": kind, "table_len": tl}
